@@ -166,6 +166,8 @@ def run(ctx):
         "verification hooks (build tag verif, add-only): EventPublisher.VerifResPublishOne = one iteration of Run; VerifResEvictSnapshot = the snapshot-cache TTL timer; a context whose Done() is decided by VerifResSubHasNext makes Watch.Next non-blocking",
         "the CAS theorem is about the sequential backend model (version = counter+1); the concurrent runs tie the real stores to it through a witness linearization built from the commit order a wildcard watch observes, real-time order checked in Go",
         "gRPC resource service above the backend (write.go/delete.go retry loop) is not modelled",
+        "Raft-path theorems assume only the schedule discipline raft_ok (fresh log-index versions, restored rows with a version >= 1); raft.Backend's retired-type short cut (isRetiredType: success without storing) and forwarding are not modelled",
+        "Subscription.snapshotIndex (716731d) is argued in Model.v to be subsumed by Watch.idx, not modelled as a field; version strings are canonical decimals or empty (others are refused by the case writer)",
     ]
     assumptions = ["atomic steps justified by the locks in the code", "NUL-free field strings, decimal versions"]
     if not ok:
@@ -206,7 +208,7 @@ def run(ctx):
     coq_cases = [c for c in cases if c.get("steps")]
     per = 250
     shards = [coq_cases[i:i + per] for i in range(0, len(coq_cases), per)]
-    res = vlib.coq_run_shards(PROP, [shard_text(s) for s in shards], jobs=6, timeout=1800)
+    res = vlib.coq_run_shards(PROP, [shard_text(s) for s in shards], jobs=4, timeout=2400)
     mism = []
     for s, (okk, idx, raw) in zip(shards, res):
         if not okk:
@@ -281,6 +283,10 @@ def run(ctx):
         "op_mix": dict(opmix),
         "output_mix": dict(outmix),
         "cases_with_restore": sum(1 for c in cases if (c.get("stats") or {}).get("restores", 0) > 0),
+        "concurrent_restore_histories": {"histories": len(restore_conc),
+                                         "watch_sessions": sum((c.get("stats") or {}).get("sessions", 0) for c in restore_conc),
+                                         "events_checked": sum((c.get("stats") or {}).get("events", 0) for c in restore_conc),
+                                         "restores": sum((c.get("stats") or {}).get("restores", 0) for c in restore_conc)},
         "race_detector": "harness built with -race, GORACE=halt_on_error=1: no report",
         "samples": [{"mode": c["mode"], "seed": c.get("seed"), "steps": len(c["steps"]), "first_steps": c["steps"][:4], "oracle": c.get("oracle", "")}
                     for c in (coq_cases[:2] + coq_cases[len(coq_cases) // 2:len(coq_cases) // 2 + 1] + coq_cases[-2:])],
